@@ -9,6 +9,9 @@
     its current task: a source is LPend/LDone exactly when its current task is
     in `tasks` (pending / done in the heap), LBatch exactly when it is in `done`;
     only current tasks can be pending; `task_map` knows the source of every task. *)
+(** KIND OF OBLIGATION: pin + simulation of the pinned term.  The program points below are hand-copied;
+    [merge_body_shape] pins the regenerated body to them by [reflexivity]; the simulation is about the pinned term.
+    Any change of the AST of `merge_aiters`, behaviour-preserving or not, breaks the pin. *)
 From NL Require Import Aio.Model Aio.Syntax Aio.Interp Gen.AioFuns Aio.Merge Aio.Agen Aio.TieBase.
 From Coq Require Import Lia.
 Local Notation length := List.length (only parsing).
@@ -377,7 +380,9 @@ Proof.
     unfold sis_empty. cbn [s_an s_ext is_nil]. rewrite andb_true_r, (MI_tasks_nil _ _ _ _ _ _ HI), negb_involutive.
     destruct (existsb in_tasks ss) eqn:E; cbn [fst snd].
     + (* tasks left: back to asyncio.wait *)
-      unfold m_outer_body. step. step. simpl. split; [reflexivity|].
+      unfold m_outer_body. step. step.
+      unfold sis_empty. cbn [s_an s_ext is_nil]. rewrite andb_true_r, (MI_tasks_nil _ _ _ _ _ _ HI), E.
+      simpl. split; [reflexivity|].
       unfold MR. cbn [m_phase m_srcs c_st c_m i_env i_w]. rewrite <- Hn.
       exists heap, tm, ts, cur, (PySet (mkS [] [])), vp, vt, vi, va. auto.
     + (* no task left: the generator ends *)
@@ -930,4 +935,70 @@ Proof.
   - intros (heap & tm & ts & cur & vd & vp & vt & vi & va & -> & _ & -> & _). auto.
   - intros (heap & tm & ts & ds & cur & vp & vt & vi & i0 & rest & -> & _ & -> & _). auto.
   - intros (heap & -> & -> & _). auto.
+Qed.
+
+(** ---- the consumer stops early: what is lost ---- *)
+
+(** There is NO close label in Model.v; this states, on the machine, what `aclose()` / cancellation of the
+    consumer at ANY moment costs.  [iclose] ends the generator at its suspension point (no try/finally in the
+    source: nothing cancels the armed `__anext__` tasks); afterwards the sources' pending anexts may still
+    complete ([MComplete] in any number and order).  Then, for every source: its items = what was yielded with
+    its tag before the close ++ AT MOST ONE item that was consumed from the source and is never yielded ++
+    what the source still holds. *)
+
+Lemma imrun_from_app ls : forall c ls',
+  fst (imrun_from c (ls ++ ls')) = fst (imrun_from (fst (imrun_from c ls)) ls').
+Proof.
+  induction ls as [|l r IH]; intros c ls'; [reflexivity|].
+  simpl. destruct (imstep c l) as [c1 o]. specialize (IH c1 ls').
+  destruct (imrun_from c1 (r ++ ls')) as [c2 os2]. destruct (imrun_from c1 r) as [c3 os3]. simpl in *.
+  destruct (imrun_from c3 ls'). exact IH.
+Qed.
+
+Definition completes (ks : list nat) (m : mach) : mach :=
+  fold_left (fun m k => setw m (complete_src (i_w m) k)) ks m.
+
+Lemma imrun_completes ks : forall st m,
+  fst (imrun_from (mkC st m) (map MComplete ks)) = mkC st (completes ks m).
+Proof.
+  induction ks as [|k r IH]; intros st m; [reflexivity|].
+  simpl. specialize (IH st (setw m (complete_src (i_w m) k))).
+  destruct (imrun_from {| c_st := st; c_m := setw m (complete_src (i_w m) k) |} (map MComplete r)) as [c1 o1].
+  simpl in *. exact IH.
+Qed.
+
+Lemma mouts_completes items ls ks : yields (mouts items (ls ++ map MComplete ks)) = yields (mouts items ls).
+Proof.
+  unfold mouts. generalize (minit items). induction ls as [|l r IH]; intros st; simpl.
+  - induction ks as [|k r IH] in st |- *; [reflexivity|].
+    simpl. destruct (nth_error (m_srcs st) k);
+      match goal with |- context [mrun_from ?s _] => specialize (IH s); destruct (mrun_from s (map MComplete r)) end;
+      simpl in *; exact IH.
+  - destruct (mstep st l) as [st1 o]. specialize (IH st1).
+    destruct (mrun_from st1 (r ++ map MComplete ks)). destruct (mrun_from st1 r). simpl in *.
+    unfold yields in *. simpl. rewrite IH. reflexivity.
+Qed.
+
+Theorem merge_close_loss items ls ks i s :
+  nth_error (m_srcs (mrun items (ls ++ map MComplete ks))) i = Some s ->
+  let c' := fst (imrun_from (iclose (imrun items ls)) (map MComplete ks)) in
+  c_st c' = StFinished /\
+  nth i items [] = proj i (yields (imouts items ls)) ++ inflight s ++ nth i (w_srcs (i_w (c_m c'))) [] /\
+  length (inflight s) <= 1.
+Proof.
+  intros Hs c'.
+  destruct (merge_tie items ls) as [Ho HR]. destruct (merge_tie items (ls ++ map MComplete ks)) as [_ HR2].
+  assert (Hc : c' = mkC StFinished (completes ks (c_m (imrun items ls)))).
+  { unfold c', iclose. destruct (MR_state _ _ HR) as [_ Hph].
+    destruct (imrun items ls) as [st m]. simpl in *.
+    destruct st; try (destruct (m_phase (mrun items ls)); contradiction); rewrite imrun_completes; reflexivity. }
+  assert (Hm : c_m (imrun items (ls ++ map MComplete ks)) = completes ks (c_m (imrun items ls))).
+  { unfold imrun at 1. rewrite imrun_from_app. fold (imrun items ls).
+    destruct (imrun items ls) as [st m]. rewrite imrun_completes. reflexivity. }
+  destruct (MR_state _ _ HR2) as [Hsrcs _]. rewrite Hm in Hsrcs.
+  rewrite Hc. simpl. split; [reflexivity|]. split.
+  - rewrite Hsrcs, Ho, <- (mouts_completes items ls ks).
+    destruct s as [rest l]. rewrite (nth_map_fst _ _ _ _ Hs).
+    apply (merge_accounting items (ls ++ map MComplete ks) i (rest, l) Hs).
+  - unfold inflight. destruct (snd s) as [| |[v|]|[v|]| |]; simpl; lia.
 Qed.
